@@ -391,6 +391,8 @@ class Ctx:
         lines = out.split("\n")
         if lines and lines[-1] == "":
             lines.pop()
+        elif rc == -9 and lines:
+            lines.pop()         # killed by our time-out in the middle of a line: drop the incomplete line
         return rc, lines, err
 
     # ---------------------------------------------------------------- accounting
@@ -490,13 +492,19 @@ def diff_tie(ctx, name, exe, args, runner, cases, oracle=None, nontrivial=None, 
     # a driver that aborted (watchdog HANG) stops early; re-run the remaining cases
     impl = list(lines)
     guard = 0
+    progressed = len(impl) > 0
     while len(impl) < len(cases) and guard < 50:
         guard += 1
-        if not impl or not impl[-1].endswith("HANG"):
+        # rc == -9: OUR batch time-out killed the driver (a loaded machine, a very large batch) — that is not a crash of the case it was working on,
+        # as long as the batch made progress: run the remaining cases again.  A driver that produced nothing within a whole time-out window is stuck.
+        if rc == -9 and progressed:
+            pass
+        elif not impl or not impl[-1].endswith("HANG"):
             impl.append("CRASH rc=%s %s" % (rc, err[-200:].replace("\n", " ")))
         if len(impl) >= len(cases):
             break
         rc, more, err = ctx.run_driver(exe, args, cases[len(impl):], timeout=timeout, env=env)
+        progressed = len(more) > 0
         impl += more
     model = ctx.modelrun(runner, cases)
     alts = [(ctx.modelrun(r, cases), k, t) for r, k, t in alt_runners]
@@ -579,7 +587,9 @@ def oracle_tie(ctx, name, exe, args, cases, oracle, nontrivial=None, bucket=None
     while done < len(cases) and guard < 300 and bad < max_viol and time.time() < t_end:
         guard += 1
         rc, more, err = ctx.run_driver(exe, args, cases[done:], timeout=max(30, t_end - time.time()), env=env)
-        if not more or (len(more) < len(cases) - done and not more[-1].endswith("HANG")):
+        if rc == -9 and more:
+            pass        # the time budget of this tie ran out in the middle of the batch (loaded machine): the case in progress is not a crash; the rest is not run
+        elif not more or (len(more) < len(cases) - done and not more[-1].endswith("HANG")):
             more.append("CRASH rc=%s %s" % (rc, err[-200:].replace("\n", " ")))
         for ln in more:
             if done >= len(cases):
